@@ -44,19 +44,19 @@ def yaml_splicer_files(ctx):
                 ast.unparse(c.func) == "splicer.get_splicers" and len(c.args) == 2 and ast.unparse(c.args[1]) == store for c in calls)
     ctx.item("C12/S1/main_with_args:yaml-splicer-files-by-key", ok,
              "files listed under `splicer: <key>:` must be read into splicers[<key>] whatever their names: " + why,
-             confirm=lambda: ctx.monitor("m_splicer_e2e", "search", 25, ctx.seed), shape=True)
+             confirm=lambda: ctx.monitor("m_splicer_e2e", "search", 40, ctx.seed), shape=True)
 
 
 def run(ctx):
     from contracts import wrapf_splicer
     mons = dict(MONITORS)
-    mons.update(dict((u.name, ("m_splicer_e2e", gs_inputs, lambda nm: None, 25)) for u in wrapf_splicer.UNITS))
+    mons.update(dict((u.name, ("m_splicer_e2e", gs_inputs, lambda nm: None, 40)) for u in wrapf_splicer.UNITS))
     ctx.pyvc([create_splicer, get_splicers, write_continue_plain, user_line_identity_carved, user_line_identity] + wrapf_splicer.UNITS, mons)
     yaml_splicer_files(ctx)
     # bounded stand-ins (never counted as proved): reader on whole-block orders; end-to-end round trip of every block
     for mon, n, kind in (("m_get_splicers", 1500, "real get_splicers against a reference reader: every order of 2-3 blocks over "
                                                  "6 dotted tags, all files of <= 3 marker/text lines, random files"),
-                         ("m_splicer_e2e", 25, "3 libraries (nested namespaces, classes with overloads and defaults, a C "
+                         ("m_splicer_e2e", 40, "3 libraries (nested namespaces, classes with overloads and defaults, a C "
                                                "library) x splicer files on the command line / listed in the YAML by key / every "
                                                "block through splicer_code / blocks alternating between file and splicer_code / "
                                                "every block in both (splicer_code wins): one unique line per block of every "
